@@ -24,6 +24,7 @@ import TE.Driver.Multi
 import TE.Driver.Meta
 import TE.Driver.Shape
 import TE.Driver.Ops
+import TE.Driver.Kernels
 open TE TE.Driver
 
 def allFams : List (String × String × (Args → Except String Fam)) :=
@@ -33,7 +34,7 @@ def allPacks : List (String × (Args → Except String Pack)) :=
   aggPacks ++ curvePacks ++ binnedPacks ++ rankPacks ++ textPacks ++ windowPacks
 
 def allFns : List (String × (Args → Except Err String)) :=
-  aggFns ++ curveFns ++ binnedFns ++ rankFns ++ textFns ++ windowFns ++ syncFns ++ multiFns ++ metaFns ++ shapeFns ++ opsFns
+  aggFns ++ curveFns ++ binnedFns ++ rankFns ++ textFns ++ windowFns ++ syncFns ++ multiFns ++ metaFns ++ shapeFns ++ opsFns ++ kernelFns
 
 def findFn (name : String) : Option (Args → Except String Fam) :=
   (allFams.find? (·.1 = name)).map (·.2.2)
